@@ -53,6 +53,29 @@ def strip_views(e):
     return e
 
 
+def promoted_value(prog, body, e):
+    """for `&*_k` / `*_k` where `_k = const <fn>::promoted[N]` (a reference to a compile-time constant such as `&Some(0)`):
+    the expression of the promoted value; else None"""
+    import re as _re
+    if e[0] not in ("ref", "place") or not e[1]:
+        return None
+    ds = body.defs().get(e[1][0], [])
+    if len(ds) != 1 or ds[0][2] != "assign" or ds[0][3]["rv"] != "use":
+        return None
+    k = str(ds[0][3]["o"].get("k", ""))
+    m = _re.match(r"^(.*)::promoted\[(\d+)\]$", k)
+    if not m:
+        return None
+    pb = prog.any_body("%s::{promoted#%s}" % (m.group(1), m.group(2)))
+    if pb is None:
+        return None
+    # the promoted body returns a reference to its local 1 (or the value itself)
+    for bi, si, st in pb.statements(live_only=False):
+        if st["s"] == "assign" and st["p"] == [1]:
+            return pb.expr_rvalue(st["r"])
+    return None
+
+
 def upvar_source(prog, cb, e):
     """for an expression of closure body `cb` that is rooted in a captured variable (place `(*_1).k ...`), the
     expression of the captured operand in the function that creates the closure (a `&self.field` capture gives
